@@ -158,7 +158,7 @@ def main():
         "setup_cmd": "make -C /verif all",
         "hooks": {"guard": "LIBKSI_VERIF",
                   "enable": "none: the analysis reads the unmodified source; no hooks are compiled into /repo",
-                  "baseline_off_cmd": "make -C /repo check",
+                  "baseline_off_cmd": "make -C /repo include-test",
                   "source_commits": [],
                   "add_only": True},
         "engines": [{"name": "ksifacts+ksirules", "path": "/verif/check", "serves_properties": claimed,
